@@ -597,7 +597,10 @@ async fn run(lines: Vec<String>, prop: String, out: &mut Out) {
 					}
 				}
 				if w[3] != "none" {
-					headers.push(("content-length".into(), w[3].as_bytes().to_vec()));
+					// several Content-Length headers travel comma-separated
+					for cl in w[3].split(',') {
+						headers.push(("content-length".into(), cl.as_bytes().to_vec()));
+					}
 				}
 				let chunks: Vec<Vec<u8>> = w[4..].iter().map(|h| unhex(h)).collect();
 				let (st, body) = c.env.http(method, &headers, chunks.clone()).await;
@@ -623,7 +626,9 @@ async fn run(lines: Vec<String>, prop: String, out: &mut Out) {
 					}
 				} else {
 					let all: Vec<u8> = chunks.concat();
-					let declared_ok = w[3] == "none" || w[3].parse::<usize>().ok() == Some(all.len());
+					// effective Content-Length: exactly one value that parses as u32, else the header is ignored
+					let eff_cl: Option<usize> = if w[3] == "none" || w[3].contains(',') { None } else { w[3].parse::<u32>().ok().map(|v| v as usize) };
+					let declared_ok = eff_cl.is_none() || eff_cl == Some(all.len());
 					// the statement speaks about JSON-RPC bodies: garbage that is also oversize may be rejected as
 					// malformed or as too large depending on where the chunk boundary falls
 					let lead = all.iter().take_while(|b| b.is_ascii_whitespace()).count();
@@ -640,7 +645,7 @@ async fn run(lines: Vec<String>, prop: String, out: &mut Out) {
 				if prop == "C07" {
 					// size gate on the HTTP path, however the body is chunked and whatever whitespace it starts with
 					let all: Vec<u8> = chunks.concat();
-					let declared: Option<usize> = if w[3] == "none" { None } else { w[3].parse().ok() };
+					let declared: Option<usize> = if w[3] == "none" || w[3].contains(',') { None } else { w[3].parse::<u32>().ok().map(|v| v as usize) };
 					let over = all.len() > c.env.cfg.max_req as usize || declared.map(|d| d > c.env.cfg.max_req as usize).unwrap_or(false);
 					orc = Ok(());
 					if method == "POST" && ct_ok {
@@ -1154,6 +1159,19 @@ fn gen_c19(rng: &mut Rng, n: u64, lines: &mut Vec<String>) {
 		}
 		// lying content-length
 		lines.push(format!("http POST {} {} {}", ct(rng), len + 1000000, hex(&body)));
+		// Content-Length spellings: `+n`, leading zeros, not a number, negative, beyond u32, repeated header
+		let odd = match rng.below(9) {
+			0 => format!("+{len}"),
+			1 => format!("00{len}"),
+			2 => "abc".to_string(),
+			3 => "-1".to_string(),
+			4 => "4294967296".to_string(),
+			5 => "4294967295".to_string(),
+			6 => format!("{len},{len}"),
+			7 => format!("{},{len}", len + 5000000),
+			_ => format!("{len}x"),
+		};
+		lines.push(format!("http POST {} {odd} {}", ct(rng), hex(&body)));
 		lines.push(format!("http POST {} none", ct(rng)));
 	}
 }
